@@ -380,6 +380,17 @@ func runC08(c *Ctx) {
 		}
 		if name != "Sign" {
 			c.Floor("R1.locked", nLockedRet, 1, "refusing return in "+name)
+			// success only with the flag known to have the required value (List's empty answer excepted)
+			for _, r := range w.MayBeNilReturns(fn) {
+				if fn.Recover != nil && r.Block() == fn.Recover {
+					continue
+				}
+				val, known := m.lockedKnown(fn, r.Block())
+				if name == "List" && known && val {
+					continue
+				}
+				c.Check(known && val == want, "R1.locked", name+"|success only after the flag was tested", w.Pos(r.Pos()), "must-fact lock flag == "+boolStr(want), name+" can return success on a path where the lock flag was not tested (or has the wrong value): a locked agent answers")
+			}
 		}
 	}
 	c.Floor("R1.gate", nEffects, 20, "effect sites in gated methods")
